@@ -20,6 +20,8 @@ func main() {
 	scans := fs.Int("scans", 8, "scans per history (hist)")
 	out := fs.String("out", "-", "case file")
 	slow := fs.Bool("slow", false, "allow cases that cost seconds of real time (refresh failures, fleet waits)")
+	dir := fs.String("dir", "/verif/corpus", "scenario: directory of scenario files")
+	only := fs.Int("only", -1, "hist: generate only the history with this index")
 	fs.Parse(os.Args[2:])
 	slowOK = *slow
 	w := bufio.NewWriterSize(os.Stdout, 1<<20)
@@ -38,7 +40,11 @@ func main() {
 		root := newRng(*seed)
 		for i := 0; i < *n; i++ {
 			hr := root.fork()
+			if *only >= 0 && i != *only {
+				continue
+			}
 			for attempt := 0; attempt < 5; attempt++ {
+				fmt.Fprintf(w, "{\"op\":\"begin\",\"hist\":%d,\"seed\":%d,\"attempt\":%d}\n", i, *seed, attempt)
 				h := newHist(newRng(hr.s), w)
 				ok, why := h.runHistory(*scans)
 				for k, v := range h.stats {
@@ -52,6 +58,12 @@ func main() {
 				stats["abandoned"]++
 			}
 		}
+		for _, k := range sortedKeys(stats) {
+			fmt.Fprintf(os.Stderr, "%s=%d\n", k, stats[k])
+		}
+	case "scenario":
+		stats := map[string]int{}
+		runScenarios(*dir, w, stats)
 		for _, k := range sortedKeys(stats) {
 			fmt.Fprintf(os.Stderr, "%s=%d\n", k, stats[k])
 		}
